@@ -83,10 +83,45 @@ class Roles:
             return False
         parts = d.split(".")
         head = mod.imports.get(parts[0])
-        if head is None:
-            return False
-        full = ".".join([head] + parts[1:])
-        return full == "threading.local"
+        if head is not None:
+            full = ".".join([head] + parts[1:])
+            if full == "threading.local":
+                return True
+        # an instance of a subclass of threading.local that keeps per-thread state per thread: no
+        # __slots__ (slots live on the class: shared), no mutable class attributes (shared), an __init__
+        # (run once per thread *with the same arguments*) that takes no arguments and stores only fresh values
+        t = self.m.resolve_expr_static(mod, v.func) if isinstance(v.func, (ast.Name, ast.Attribute)) else None
+        from .model import ClassInfo
+
+        if isinstance(t, ClassInfo) and "threading.local" in self.m.external_bases(t) and not v.args and not v.keywords:
+            return self.local_subclass_is_confined(t) is None
+        return False
+
+    def local_subclass_is_confined(self, c):
+        """None if every attribute of an instance of this threading.local subclass is per-thread;
+        otherwise a description of what is shared between threads."""
+        from .model import ClassInfo
+
+        for k in self.m.mro(c):
+            if not isinstance(k, ClassInfo):
+                continue
+            for name, vals in k.assigns.items():
+                if name == "__slots__":
+                    return f"`__slots__` on {k.name}: slot descriptors live on the class, their values are not per-thread"
+                for v in vals:
+                    if v is None:
+                        continue  # bare annotation
+                    if not (isinstance(v, ast.Constant) or (isinstance(v, ast.Tuple) and all(isinstance(e, ast.Constant) for e in v.elts))):
+                        return f"class attribute `{k.name}.{name} = {norm(v)[:40]}` is one object shared by all threads"
+            init = k.methods.get("__init__")
+            if init is not None:
+                if len(init.params) > 1:
+                    return f"{k.name}.__init__ takes arguments: threading.local re-runs __init__ in every thread with the same argument objects"
+                for n in walk_scope(init.node):
+                    if isinstance(n, ast.Assign) and not (isinstance(n.value, (ast.Constant, ast.List, ast.Dict, ast.Set, ast.Tuple))
+                                                          or (isinstance(n.value, ast.Call) and isinstance(n.value.func, ast.Name) and n.value.func.id in ("list", "dict", "set"))):
+                        return f"{k.name}.__init__ stores `{norm(n.value)[:40]}`, which may be shared between threads"
+        return None
 
     def _find_thread_locals(self):
         for mod in self.m.modules.values():
